@@ -29,7 +29,7 @@ ASSUMPTIONS = ["faults inside cease/exit/clean callbacks are not generated (outs
                "scheduler-level interrupts are injected only where do() is designed to survive them (loop body, recur), never inside exit()"]
 NSHARDS = {"quick": 8, "thorough": 16}
 REQUIRE = {"doers_judged": 10000, "path:completion": 200, "path:limit": 200, "path:recur-raise": 200, "path:enter-raise": 200,
-           "path:extend-enter-raise": 100, "path:remove": 200, "path:kbint-in-doer": 200, "path:kbint-sched": 200, "path:hook-acts": 150, "path:extend-idle-always": 150,
+           "path:extend-enter-raise": 100, "path:remove": 200, "path:kbint-in-doer": 200, "path:kbint-sched": 200, "path:hook-acts": 150, "path:extend-idle-always": 150, "path:extend-present": 150,
            "terminal:clean": 1000, "terminal:cease": 1000, "terminal:abort": 300, "failpoints_fired": 150}
 
 
